@@ -1045,7 +1045,10 @@ class Engine:
         kwargs = {}
         for kw in n.keywords:
             if kw.arg is None:
-                raise OutOfSubset(n, "**kwargs at call site")
+                if "**" in kwargs:
+                    raise OutOfSubset(n, "several **kwargs at one call site")
+                kwargs["**"] = self.ev(kw.value, st)
+                continue
             kwargs[kw.arg] = self.ev(kw.value, st)
         return self.call(f, args, kwargs, n, st)
 
@@ -1080,6 +1083,10 @@ class Engine:
             return self.call_closure(f, args, kwargs, n, st)
         if callable(f) and not isinstance(f, (V, MObj, tuple)):
             return f(self, args, kwargs, n, st)
+        if isinstance(f, V) and isinstance(f.ty, TObj):
+            k = self.reg.lookup_method(f.ty.name, "__call__")
+            if k is not None:
+                return self.apply_contract(k, [f] + args, kwargs, n, st)
         if isinstance(f, PyConst):
             k = self.c.calls.get(f.name) or self.reg.lookup_function(f.name)
             if k is not None:
@@ -1310,6 +1317,11 @@ class Engine:
         if isinstance(tgt, ast.Name):
             if isinstance(val, tuple) and val and val[0] in ("emptylist", "emptydict", "emptyset") and tgt.id in self.c.local_types:
                 val = self.empty_of(self.c.local_types[tgt.id])
+            elif tgt.id in self.c.local_types and isinstance(val, V):
+                try:
+                    val = self.coerce(val, self.c.local_types[tgt.id], node)
+                except OutOfSubset:
+                    pass  # the local changes type here (e.g. after the loop): keep the raw value
             st.env[tgt.id] = val
             return
         if isinstance(tgt, ast.Attribute):
